@@ -42,6 +42,7 @@ def run(ctx):
              "siblings' descendants, requirement flags, duplicated branches) has a reset in the call closure of remove() with the same traversal extent")
     from ..rules import memo, shared
     memo.check(ctx, cg, ef, res, shared.api_entries(sm))
+    initialiser_keeps_decided_flags(ctx)
     add = sm.func('XMLElement', 'add_child', T.M_XMLELEMENT)
     rem = sm.func('XMLElement', 'remove', T.M_XMLELEMENT)
     ins_clo = cg.closure([add])
@@ -119,3 +120,35 @@ def run(ctx):
     # duplicated branches: pruned on removal (shared rule with C06) and the container root only written by its owners
     c06.prune_rules(ctx, rem)
     c06.ownership(ctx, ef)
+
+
+def initialiser_keeps_decided_flags(ctx):
+    """The lazy initialiser of the requirement flags runs whenever the root's own flag is None - also after add_element wrapped the root into
+    a fresh duplication wrapper (whose flag is None) while the nodes below already carry decided flags.  It may therefore only fill flags
+    that are still None; overwriting a False erases a requirement that remove() had re-opened."""
+    sm, res = ctx.sm, ctx.res
+    res.rule('R-INIT.flags', "_set_requirements_fulfilled() fills only flags that are still None: every `x._requirements_fulfilled = True` in it is dominated by a test "
+             "`x._requirements_fulfilled is None` (the initialiser is re-run when the container root was replaced by a duplication wrapper)")
+    f = sm.func('XMLChildContainer', '_set_requirements_fulfilled', T.M_CONTAINER)
+    g = cfg_of(f.node)
+    n = 0
+    for node in g.stmt_nodes():
+        st = node.ast if node.kind == 'stmt' else None
+        if not (isinstance(st, ast.Assign) and len(st.targets) == 1 and isinstance(st.targets[0], ast.Attribute) and
+                st.targets[0].attr in ('_requirements_fulfilled', 'requirements_fulfilled') and isinstance(st.value, ast.Constant) and st.value.value is True):
+            continue
+        n += 1
+        recv = unparse(st.targets[0].value)
+        guards = {(unparse(t.ast), lab) for t, lab in dom.guards_of(g, node) if t.kind == 'test'}
+        ok = any(txt in (f"{recv}._requirements_fulfilled is None", f"{recv}.requirements_fulfilled is None") and lab == 'T' for txt, lab in guards) or \
+            any(txt in (f"{recv}._requirements_fulfilled is not None", f"{recv}.requirements_fulfilled is not None") and lab == 'F' for txt, lab in guards)
+        # a conjunct of the guarding test counts as well
+        for t, lab in dom.guards_of(g, node):
+            if t.kind == 'test' and lab == 'T' and isinstance(t.ast, ast.BoolOp) and isinstance(t.ast.op, ast.And):
+                if any(unparse(v) in (f"{recv}._requirements_fulfilled is None", f"{recv}.requirements_fulfilled is None") for v in t.ast.values):
+                    ok = True
+        res.check(ok, 'R-INIT.flags', f.fq, f"`{short(st, 60)}` only fills a flag that is still None",
+                  fail_detail="an already decided flag (False: a required particle that was emptied again) is overwritten with True when the initialiser runs on a tree "
+                              "whose root was replaced by a duplication wrapper: the requirement is lost and an invalid element serialises",
+                  key=f"R-INIT.flags|overwrite|{'guarded-branch' if guards else 'unguarded'}|{sorted(lab for _, lab in guards)}", line=node.line)
+    res.floor('R-INIT.flags stores', n, 2)
